@@ -100,10 +100,12 @@ func (vfs *OrefaFS) Chmod(name string, mode fs.FileMode) error {
 
 	absPath := vfs.absPath(name)
 
+	// the index stays read locked until the node is modified : the file can't be removed in between.
 	verifYield(&vfs.mu, false)
 	vfs.mu.RLock()
+	defer vfs.mu.RUnlock()
+
 	nd, ok := vfs.nodes[absPath]
-	vfs.mu.RUnlock()
 
 	if !ok {
 		return &fs.PathError{Op: op, Path: name, Err: vfs.err.NoSuchFile}
@@ -133,10 +135,12 @@ func (vfs *OrefaFS) Chown(name string, uid, gid int) error {
 
 	absPath := vfs.absPath(name)
 
+	// the index stays read locked until the node is modified : the file can't be removed in between.
 	verifYield(&vfs.mu, false)
 	vfs.mu.RLock()
+	defer vfs.mu.RUnlock()
+
 	nd, ok := vfs.nodes[absPath]
-	vfs.mu.RUnlock()
 
 	if !ok {
 		return &fs.PathError{Op: op, Path: name, Err: vfs.err.NoSuchFile}
@@ -161,10 +165,12 @@ func (vfs *OrefaFS) Chtimes(name string, atime, mtime time.Time) error {
 
 	absPath := vfs.absPath(name)
 
+	// the index stays read locked until the node is modified : the file can't be removed in between.
 	verifYield(&vfs.mu, false)
 	vfs.mu.RLock()
+	defer vfs.mu.RUnlock()
+
 	nd, ok := vfs.nodes[absPath]
-	vfs.mu.RUnlock()
 
 	if !ok {
 		return &fs.PathError{Op: op, Path: name, Err: vfs.err.NoSuchFile}
@@ -313,10 +319,12 @@ func (vfs *OrefaFS) Lchown(name string, uid, gid int) error {
 
 	absPath := vfs.absPath(name)
 
+	// the index stays read locked until the node is modified : the file can't be removed in between.
 	verifYield(&vfs.mu, false)
 	vfs.mu.RLock()
+	defer vfs.mu.RUnlock()
+
 	nd, ok := vfs.nodes[absPath]
-	vfs.mu.RUnlock()
 
 	if !ok {
 		return &fs.PathError{Op: op, Path: name, Err: vfs.err.NoSuchFile}
@@ -340,12 +348,15 @@ func (vfs *OrefaFS) Link(oldname, newname string) error {
 
 	nDirName, nFileName := vfs.splitAbs(nAbsPath)
 
-	verifYield(&vfs.mu, false)
-	vfs.mu.RLock()
+	// the index is locked from the lookups to the creation of the link,
+	// so that no other call can change what has been found.
+	verifYield(&vfs.mu, true)
+	vfs.mu.Lock()
+	defer vfs.mu.Unlock()
+
 	oChild, oChildOk := vfs.nodes[oAbsPath]
 	_, nChildOk := vfs.nodes[nAbsPath]
 	nParent, nParentOk := vfs.nodes[nDirName]
-	vfs.mu.RUnlock()
 
 	if !oChildOk {
 		err := vfs.err.NoSuchFile
@@ -353,10 +364,7 @@ func (vfs *OrefaFS) Link(oldname, newname string) error {
 		if vfs.OSType() == avfs.OsWindows {
 			oDirName, _ := avfs.SplitAbs(vfs, oAbsPath)
 
-			verifYield(&vfs.mu, false)
-			vfs.mu.RLock()
 			_, oParentOk := vfs.nodes[oDirName]
-			vfs.mu.RUnlock()
 
 			if !oParentOk {
 				err = vfs.err.NoSuchDir
@@ -401,10 +409,7 @@ func (vfs *OrefaFS) Link(oldname, newname string) error {
 	nParent.mu.Lock()
 	defer nParent.mu.Unlock()
 
-	verifYield(&vfs.mu, true)
-	vfs.mu.Lock()
 	vfs.nodes[nAbsPath] = oChild
-	vfs.mu.Unlock()
 
 	nParent.addChild(nFileName, oChild)
 
@@ -592,11 +597,20 @@ func (vfs *OrefaFS) OpenFile(name string, flag int, perm fs.FileMode) (avfs.File
 	absPath := vfs.absPath(name)
 	dirName, fileName := vfs.splitAbs(absPath)
 
-	verifYield(&vfs.mu, false)
-	vfs.mu.RLock()
+	// the index is locked from the lookup to the creation or the truncation of the file,
+	// so that no other call can change what has been found.
+	if om&(avfs.OpenCreate|avfs.OpenTruncate) != 0 {
+		verifYield(&vfs.mu, true)
+		vfs.mu.Lock()
+		defer vfs.mu.Unlock()
+	} else {
+		verifYield(&vfs.mu, false)
+		vfs.mu.RLock()
+		defer vfs.mu.RUnlock()
+	}
+
 	parent, parentOk := vfs.nodes[dirName]
 	child, childOk := vfs.nodes[absPath]
-	vfs.mu.RUnlock()
 
 	if !childOk {
 		if !parentOk {
@@ -609,16 +623,6 @@ func (vfs *OrefaFS) OpenFile(name string, flag int, perm fs.FileMode) (avfs.File
 
 		if om&avfs.OpenCreate == 0 {
 			return (*OrefaFile)(nil), &fs.PathError{Op: op, Path: name, Err: vfs.err.NoSuchFile}
-		}
-
-		verifYield(&vfs.mu, true)
-		vfs.mu.Lock()
-		defer vfs.mu.Unlock()
-
-		// test for race conditions when opening file in exclusive mode.
-		_, childOk = vfs.nodes[absPath]
-		if childOk && om&avfs.OpenCreateExcl != 0 {
-			return (*OrefaFile)(nil), &fs.PathError{Op: op, Path: name, Err: vfs.err.FileExists}
 		}
 
 		child = vfs.createFile(parent, absPath, fileName, perm)
@@ -824,11 +828,14 @@ func (vfs *OrefaFS) Rename(oldname, newname string) error {
 		return &os.LinkError{Op: op, Old: oldname, New: newname, Err: vfs.err.InvalidArgument}
 	}
 
+	// the index is locked from the lookups to the end of the move,
+	// so that no other call can change what has been found.
+	verifYield(&vfs.mu, true)
+	vfs.mu.Lock()
+	defer vfs.mu.Unlock()
+
 	if oAbsPath == nAbsPath {
-		verifYield(&vfs.mu, false)
-		vfs.mu.RLock()
 		oChild, oChildOk := vfs.nodes[oAbsPath]
-		vfs.mu.RUnlock()
 
 		if !oChildOk {
 			return &os.LinkError{Op: op, Old: oldname, New: newname, Err: vfs.err.NoSuchFile}
@@ -845,13 +852,10 @@ func (vfs *OrefaFS) Rename(oldname, newname string) error {
 	oDirName, oFileName := avfs.SplitAbs(vfs, oAbsPath)
 	nDirName, nFileName := avfs.SplitAbs(vfs, nAbsPath)
 
-	verifYield(&vfs.mu, false)
-	vfs.mu.RLock()
 	oChild, oChildOk := vfs.nodes[oAbsPath]
 	oParent, oParentOk := vfs.nodes[oDirName]
 	nChild, nChildOk := vfs.nodes[nAbsPath]
 	nParent, nParentOk := vfs.nodes[nDirName]
-	vfs.mu.RUnlock()
 
 	if !oChildOk || !oParentOk || !nParentOk {
 		return &os.LinkError{Op: op, Old: oldname, New: newname, Err: vfs.err.NoSuchFile}
@@ -910,10 +914,6 @@ func (vfs *OrefaFS) Rename(oldname, newname string) error {
 	nParent.addChild(nFileName, oChild)
 
 	delete(oParent.children, oFileName)
-
-	verifYield(&vfs.mu, true)
-	vfs.mu.Lock()
-	defer vfs.mu.Unlock()
 
 	vfs.nodes[nAbsPath] = oChild
 	delete(vfs.nodes, oAbsPath)
@@ -1069,10 +1069,12 @@ func (vfs *OrefaFS) Truncate(name string, size int64) error {
 
 	absPath := vfs.absPath(name)
 
+	// the index stays read locked until the node is modified : the file can't be removed in between.
 	verifYield(&vfs.mu, false)
 	vfs.mu.RLock()
+	defer vfs.mu.RUnlock()
+
 	child, childOk := vfs.nodes[absPath]
-	vfs.mu.RUnlock()
 
 	if !childOk {
 		if vfs.OSType() == avfs.OsWindows {
